@@ -1,9 +1,75 @@
-(* C35/Properties.v *)
-From Coq Require Import List NArith Bool.
+(* C35/Properties.v — property C35: shared LRU caches are safe under concurrency.
+   Only statements, each closed by `exact <lemma>`, with Print Assumptions beneath. *)
+From Coq Require Import List NArith ZArith Bool.
 From Common Require Import Lock.
-From C35 Require Import Model Gen Checker Proofs.
+From Conc Require Import Lin LockedObject.
+From C35 Require Import Model Gen Checker Proofs ProofsPtr ProofsConc ProofsTop.
+Import ListNotations.
+Local Open Scope N_scope.
 
-(* the lock discipline read from lib/utils/lru-cache/lru_cache.go on this run: every method
-   takes the exclusive lock first and releases it by defer *)
+(* ---- obligations tied to the Go source by the translator (Gen.v is regenerated on every run) *)
+(* every method of LRUCache takes the exclusive lock first and releases it by defer *)
 Example C35_discipline_ok : forallb exclusive_entry lru_locks = true.
 Proof. reflexivity. Qed.
+Example C35_modes_exclusive : forall o, mode_of lru_locks o = LockExclusive.
+Proof. destruct o; reflexivity. Qed.
+Example C35_default_capacity : default_lru_capacity = Z.of_N default_capacity.
+Proof. reflexivity. Qed.
+
+(* ---- sequential behaviour: for every capacity and every sequence of gets, puts (and dumps of
+   the recency order) both Tier A models — the pointer-level model of container/list (sentinel
+   ring, next/prev pointers, the statements of MoveToFront / Remove / PushFront one by one) and
+   the map + recency-list model of lru_cache.go — return exactly what the capacity-bounded
+   recency list returns: a get refreshes recency, a put into a full cache evicts the least
+   recently used entry. *)
+Theorem C35_seq_refines : forall (c : N) (ops : list op),
+  p_run (p_new c) ops = r_run (r_new c) ops /\ m_run (m_new c) ops = r_run (r_new c) ops.
+Proof.
+  intros c ops. split; [apply p_run_r_run|].
+  rewrite <- abs_new. apply m_run_refines. apply minv_new.
+Qed.
+Print Assumptions C35_seq_refines.
+
+(* ---- concurrency: with the lock modes read from the source, every complete interleaved
+   history of any number of threads calling Get/Put (bodies interleaved at the granularity of
+   single statements of lru_cache.go and container/list) is linearizable w.r.t. the
+   recency-list specification, and the final heap represents the list reached by that
+   linearization (RP: a well-formed ring holding exactly those entries). *)
+Theorem C35_linearizable :
+  forall (c : N) (P : nat -> list op) (cf : cfg pst loc op res),
+    reach pst loc op res p_init p_fin p_mstep (mode_of lru_locks) (init_cfg pst loc op res (p_new c) P) cf ->
+    quiescent pst loc op res cf ->
+    exists l q, linearization r_fspec (r_new c) (done pst loc op res cf) l q /\
+                RP (shared pst loc op res cf) q.
+Proof. exact (lru_linearizable_rspec lru_locks C35_modes_exclusive). Qed.
+Print Assumptions C35_linearizable.
+
+(* ---- the checker run on recorded histories of the real cache: its positive answers are
+   sound (memoized search), the plain search decides linearizability *)
+Theorem C35_lin_check_sound : forall bud c h,
+  lru_lin bud c h = Some true -> linearizable (fspec rspec op res r_step) (r_new c) h.
+Proof. intros bud c h. apply lin_check_m_true. exact res_eqb_spec. Qed.
+Print Assumptions C35_lin_check_sound.
+
+Theorem C35_lin_check_complete : forall bud c h,
+  lru_lin_complete bud c h = Some false -> ~ linearizable (fspec rspec op res r_step) (r_new c) h.
+Proof. intros bud c h. apply lin_check_b_false. exact res_eqb_spec. Qed.
+Print Assumptions C35_lin_check_complete.
+
+(* ---- the pinned source before the fix: Get ran under the read lock.  Two concurrent Gets
+   complete and leave a list from which an element is missing (3 elements, 2 reachable). *)
+Theorem C35_concurrent_get_refuted :
+  exists cf : cfg pst loc op res,
+    reach pst loc op res p_init p_fin p_mstep (mode_of prefix_locks) (init_cfg pst loc op res s321 two_gets) cf /\
+    length (done pst loc op res cf) = 2%nat /\
+    p_wf (shared pst loc op res cf) = false.
+Proof.
+  exists bad_final. destruct concurrent_get_corrupts as [A [B [_ [D _]]]]. exact (conj A (conj B D)).
+Qed.
+Print Assumptions C35_concurrent_get_refuted.
+
+(* non-vacuity: an eviction of the least recently used key after a refreshing get *)
+Example C35_nonvacuous :
+  r_run (r_new 2) [Put 1 10; Put 2 20; Get 1; Put 3 30; Get 2; Get 1; Dump]
+  = [RUnit; RUnit; RVal 10; RUnit; RVal 0; RVal 10; RList [(1, 10); (3, 30)]].
+Proof. vm_compute. reflexivity. Qed.
